@@ -1282,7 +1282,7 @@ def end_state(e):
     return [e.state, lab.exc_class(e.exc)]
 
 
-def play_generators(scn, spec, pin, order_seed=None, refilter=None):
+def play_generators(scn, spec, pin, order_seed=None, refilter=None, record_size=None, sent_log=None):
     """one complete conversation (twice for resumption scenarios) driven as generators over MemSock"""
     import hashlib
     import random
@@ -1302,6 +1302,11 @@ def play_generators(scn, spec, pin, order_seed=None, refilter=None):
         if refilter is not None:
             L.link.filter = refilter(L)
         c, sv = start_handshake(L, scn, session=session, cache=cache)
+        for who, k in (record_size or {}).items():
+            L.end(who).conn.recordSize = k                # the sender-side chunking knob
+        if sent_log is not None:
+            for who in ("client", "server"):
+                lab.trace_messages(L.end(who).conn, sent_log.setdefault(who, []))
         L.start_client(c)
         L.start_server(sv)
         run_gens(L, pin, rng)
@@ -2078,6 +2083,13 @@ def live_compare(ctx, scn, kind, spec, ref, pin, order_seed=None, reframe=None):
             elif kind == "asm":
                 got = play_asm(scn, spec, pin, order_seed=order_seed)
                 ignore = ("closed", "resumable")
+            elif kind == "sendsize":
+                got = play_generators(scn, spec, pin, order_seed=order_seed, record_size=spec.get("record_size"))
+                ignore = ("wire_c2s", "wire_s2c", "send_limit", "recv_limit")
+                if spec.get("rsl"):
+                    # another record_size_limit value is another ClientHello: transcript-derived secrets differ
+                    ignore += ("masterSecret", "cl_app_secret", "sr_app_secret", "exporterMasterSecret",
+                               "resumptionMasterSecret", "sessionID")
             elif kind == "asmcb":
                 got = play_asm_cb(scn, spec, pin, order_seed=order_seed)
                 ignore = ("closed", "resumable", "wire_c2s", "wire_s2c")
@@ -2119,6 +2131,59 @@ def live_compare(ctx, scn, kind, spec, ref, pin, order_seed=None, reframe=None):
                       % (scn["name"], kind if kind != "reframe" else "re-framed (%s)" % reframe[0], first[0], first[1], first[2], len(d)),
                       dict(rep, differences=[list(x) for x in d[:12]]))
     return got
+
+
+def corr_fragment(ctx, P):
+    """sender side: TLSRecordLayer._sendMsg on a fresh connection (null cipher) with conn.recordSize = k;
+    model `fragmentMsg` vs the record payload lengths on the wire.  Directed: every k around every
+    divisor of the length (the exact-multiple boundary), not cut by any budget."""
+    from tlslite.tlsconnection import TLSConnection
+    from tlslite.messages import Message
+    rng = ctx.rng
+    cases = []
+    for ln in list(range(0, 26)) + [30, 32, 48, 64, 100, 128]:
+        ks = set(range(1, min(ln, 12) + 3))
+        for d in range(1, ln + 1):
+            if ln % d == 0:
+                ks.update([d, d - 1, d + 1])
+        for k in sorted(x for x in ks if x >= 1):
+            cases.append((ln, k, rng.choice([20, 21, 22, 22, 23, 24])))
+    for _ in range(ctx.pick(300, 3000)):
+        ln = rng.choice([0, 1, 5, 17, 64, 300, 1000, 16384, 16385, 32768, 40000])
+        cases.append((ln, rng.choice([1, 2, 7, 64, 100, 1000, 16383, 16384, 16385, max(1, ln), max(1, ln // 2), ln + 1]) if ln < 2000
+                      else rng.choice([1000, 8192, 16384, 16385, ln, ln // 2, ln + 1]), rng.choice([22, 23])))
+    for ln, k, ctype in cases:
+        data = rb(rng, ln)
+        raw = ScriptSock(b"", [], [1 << 30] * (ln // k + 4))
+        conn = TLSConnection(raw)
+        conn.version = (3, 3)
+        conn.recordSize = k
+        res = "ok"
+        try:
+            for _ in conn._sendMsg(Message(ctype, bytearray(data))):
+                pass
+        except Exception as e:  # noqa: BLE001
+            res = "exc:" + exc_name(e)
+        wire = bytes(raw.sent)
+        lens, body, i = [], b"", 0
+        while i + 5 <= len(wire):
+            n = (wire[i + 3] << 8) | wire[i + 4]
+            lens.append(n)
+            body += wire[i + 5:i + 5 + n]
+            i += 5 + n
+        case = {"stage": "a:fragment", "length": ln, "recordSize": k, "type": ctype}
+        if ln <= 4000:
+            P.add("fragment %d %s" % (k, hx(data)), "sendMsg-fragmentation", case, ",".join(str(x) for x in lens))
+        ctx.case(key=("fragment", ln, k, ctype), sample=dict(case, records=lens[:8]) if (ln, k) == (24, 8) else None)
+        ctx.count("a:fragment:%s" % ("exact-multiple" if ln and ln % k == 0 else "other"))
+        # direct oracle: the records carry the message, none longer than recordSize, and a non-empty
+        # message never produces an empty record (the peer must refuse empty handshake/alert/CCS records)
+        if res != "ok" or body != data or any(x > k for x in lens) or (ln > 0 and any(x == 0 for x in lens)) \
+                or len(lens) != max(1, -(-ln // k)):
+            ctx.violation("c14:sendmsg-fragmentation",
+                          "_sendMsg of a %d-byte message (content type %d) with recordSize %d produced records of %s bytes (%s)"
+                          % (ln, ctype, k, lens[:12], res), dict(case, data=data.hex() if ln <= 200 else "len%d" % ln, records=lens[:50]))
+    P.flush()
 
 
 def corr_alertpeek(ctx, P):
@@ -2321,6 +2386,53 @@ def senderr_runs(ctx):
                                           dict(rep, outcome=got, reference=ref))
 
 
+def sender_chunking_runs(ctx, pin):
+    """directed family (not cut by any budget): the SENDER's chunking knobs must not change the
+    outcome either.  conn.recordSize is set before the handshake on one endpoint to L, L-1, L+1 and
+    L/2 for every length L handed to _sendMsg in a traced reference run (every handshake message,
+    every coalesced TLS 1.3 flight, the application data), plus a few small sizes on both endpoints;
+    record_size_limit is negotiated to values derived from the same lengths.  Everything except the
+    wire framing (and the negotiated limits themselves) must equal the unconstrained run."""
+    names = ["rsa-3.1", "ecdhe-3.3", "clientauth-3.3", "tls13-x25519", "clientauth-tls13"] + \
+        (["resume-3.3", "resume-tls13", "rsa-3.0", "dhe-3.2"] if ctx.thorough() else [])
+    allscn = {x["name"]: x for x in scenario_list(True)}
+    for name in names:
+        scn = allscn[name]
+        ref = play_generators(scn, {"seed": 0}, pin)
+        log = {}
+        traced = play_generators(scn, {"seed": 0}, pin, sent_log=log)
+        if diff_outcomes(ref, traced):
+            raise RuntimeError("tracing the sent messages changed the outcome of %s" % name)
+        plans = []
+        lens_all = set()
+        for who in ("client", "server"):
+            lens = sorted(set(len(b) for kind, nm, b in log.get(who, []) if kind == "send" and len(b) > 0))
+            lens_all.update(lens)
+            sizes = set()
+            for ln in lens:
+                sizes.update([ln, ln - 1, ln + 1])
+                if ln % 2 == 0:
+                    sizes.add(ln // 2)
+                if ln % 3 == 0:
+                    sizes.add(ln // 3)
+            for k in sorted(x for x in sizes if 1 <= x <= 16384):
+                plans.append(({who: k}, scn))
+        for k in ([1, 2, 3, 4, 7, 16, 32, 64] if not ctx.thorough() else list(range(1, 41)) + [64, 100, 1000]):
+            plans.append(({"client": k, "server": k}, scn))
+        # record_size_limit negotiated small (>= 64); TLS 1.3 counts the content type byte
+        rsls = set()
+        for ln in lens_all:
+            for v in (ln, ln + 1, ln // 2, ln // 2 + 1, ln // 3, ln // 3 + 1, ln // 4, ln // 4 + 1):
+                if 64 <= v <= 16384:
+                    rsls.add(v)
+        for v in sorted(rsls)[:ctx.pick(12, 1000)]:
+            plans.append(({}, dict(scn, rsl=v)))
+        ctx.count("sendsize:plans:" + name, len(plans))
+        for record_size, scn2 in plans:
+            spec = {"seed": 0, "record_size": record_size, "rsl": scn2.get("rsl")}
+            live_compare(ctx, scn2, "sendsize", spec, ref, pin)
+
+
 def live_runs(ctx):
     rng = ctx.rng
     pin_seed = rng.randrange(1 << 30)
@@ -2339,6 +2451,8 @@ def live_runs(ctx):
                 raise RuntimeError("reference run of %s is not reproducible under pinned randomness: %r"
                                    % (scn["name"], diff_outcomes(refs[scn["name"]], again)[:3]))
         ctx.extra["live_scenarios"] = {n: [c["hs_client"], c["hs_server"]] for n, r in refs.items() for c in r["conns"][-1:]}
+        # directed families first, outside the time budget
+        sender_chunking_runs(ctx, pin)
         # every scenario under a few schedules; more as time allows
         round_no = 0
         while True:
@@ -2432,6 +2546,7 @@ def run(ctx):
     corr_defragmenter(ctx, P)
     corr_getnextrecord(ctx, P)
     corr_asm(ctx, P)
+    corr_fragment(ctx, P)
     corr_alertpeek(ctx, P)
     senderr_runs(ctx)
     live_runs(ctx)
@@ -2457,8 +2572,11 @@ def replay(ctx, rep):
         return got != ref
     if inp.get("stage") == "live":
         scn = [x for x in scenario_list(True) if x["name"] == inp["scenario"]][0]
+        base = scn
+        if inp.get("kind") == "sendsize" and inp["schedule"].get("rsl"):
+            scn = dict(scn, rsl=inp["schedule"]["rsl"])
         with Pin(inp["pin_seed"]) as pin:
-            ref = play_generators(scn, {"seed": 0}, pin)
+            ref = play_generators(base, {"seed": 0}, pin)
             reframe = tuple(inp["reframe"]) if inp.get("reframe") else None
             got = live_compare(ctx, scn, inp["kind"], inp["schedule"], ref, pin, order_seed=inp.get("order_seed"),
                                reframe=reframe)
@@ -2478,6 +2596,7 @@ def replay(ctx, rep):
     corr_defragmenter(ctx, P)
     corr_getnextrecord(ctx, P)
     corr_asm(ctx, P)
+    corr_fragment(ctx, P)
     corr_alertpeek(ctx, P)
     for d in ctx.disagreements[:5]:
         print("disagreement", d["stream"], "model:", d["model"], "impl:", d["impl"])
